@@ -186,3 +186,14 @@ Theorem hex_encode_loop_matches_source : forall l fuel, all_lt 256 l = true -> (
              hex_encode_raw l = Ok (map Z.to_N ws).
 Proof. exact ST.Codec.LoopBridge.hex_encode_matches_source. Qed.
 Print Assumptions hex_encode_loop_matches_source.
+
+(* ---- and so does the base64 encoder: _ST_PRIVATE::b64_encode as TRANSLATED from the current headers (its loop over three
+   bytes at a time, the switch on the 0/1/2 bytes left with the '=' padding, its function-local table, the ST_ASSERT of
+   the default group) stores, for inputs of any length and every sufficient fuel, exactly the characters of the model
+   encoder b64_encode_raw that base64_encode and every theorem above are stated over ---- *)
+Theorem b64_encode_loop_matches_source : forall l fuel, all_lt 256 l = true -> (length l < fuel)%nat ->
+  (Z.of_nat (length l) < 18446744073709551616)%Z ->
+  exists ws, ST.Gen.Leaf.src_b64_encode fuel (ST.Codec.LoopBridge.arrb l) (Z.of_nat (length l)) = Some ws /\
+             b64_encode_raw (S (length l)) l = Ok (map Z.to_N ws).
+Proof. exact ST.Codec.LoopBridge.b64_encode_matches_source. Qed.
+Print Assumptions b64_encode_loop_matches_source.
